@@ -1,6 +1,8 @@
 """Flow-sensitive value provenance (reaching definitions) with alpha-invariant mu-terms for loop-carried
 variables, and canonical rendering of terms.  Used by R-SIFT / R-DUAL / R-BOUNDS where the flow-insensitive
 VP of core.py would conflate `m` (old position) and `i` (newly selected position)."""
+import re
+
 from .core import strip, VIEW_CALLS, OPTION_PAYLOAD_COMBINATORS
 
 
@@ -270,7 +272,17 @@ def canon(t, closure_body=None, depth=0):
         op = t[1]
         a, b = c(t[2]), c(t[3])
         if op in FLIP:
-            return "%s(%s,%s)" % (FLIP[op], b, a)
+            op, a, b = FLIP[op], b, a
+        if op == "Le":
+            # x <= k  ==  x < k+1 ;  k <= x  ==  k-1 < x   (integer constants only)
+            mb = re.fullmatch(r"(\d+)_usize", b)
+            ma = re.fullmatch(r"(\d+)_usize", a)
+            if mb:
+                op, b = "Lt", "%d_usize" % (int(mb.group(1)) + 1)
+            elif ma and int(ma.group(1)) >= 1:
+                op, a = "Lt", "%d_usize" % (int(ma.group(1)) - 1)
+        if op in ("Lt", "Le"):
+            return "%s(%s,%s)" % (op, a, b)
         if op in ("Eq", "Ne", "Add", "Mul", "AddWithOverflow", "MulWithOverflow", "BitAnd", "BitOr"):
             a, b = sorted((a, b))
         return "%s(%s,%s)" % (op, a, b)
